@@ -181,6 +181,8 @@ func RunProperty(id string, p *ir.Program, r *report.R) bool {
 	errorRegression(p, r, id)
 	if files := anchorFiles(id); files != nil {
 		errorIdentity(p, r, files)
+		lockPairing(p, r, files)
+		guardedBy(p, r, files)
 	}
 	return true
 }
